@@ -224,6 +224,26 @@ def run_gen(case, R):
             x4.write(f5)
         r5 = t2_ref.read(f5, autough2=au)
         R.check(r5['sections'] == secs, 'rewrite:section-order', 'rewritten file has %r, expected %r' % (r5['sections'], secs))
+        # -------------------------------------------------------------- leg 5: a section added to a model that was read
+        # from a file with its sections in another (legal) order: the model, as it then is, must round-trip too.
+        # The added section is SIMUL (the one whose position decides how PARAM is laid out); TOUGH2-flavoured models only.
+        if not au and 'PARAM' in secs and case.get('add_simul', len(m['title']) % 2 == 0):
+            R.label('leg5:simulator-added-after-read')
+            e4 = data.extract(x4)
+            with R.lib('set-simulator'):
+                x4.simulator = 'AUTOUGH2.2'
+            e4['simulator'] = 'AUTOUGH2.2'
+            f6 = os.path.join(tmp, 'six.dat')
+            with R.lib('write-with-simulator'):
+                x4.write(f6)
+            with R.lib('read-with-simulator'):
+                x6 = t2data.t2data(f6, read_function=fff.fortran_read_function) if needs_fortran_reader else t2data.t2data(f6)
+            e6 = data.extract(x6)
+            for e in (e4, e6):
+                if e.get('multi'): e['multi'] = dict(e['multi']); e['multi'].pop('num_inc', None)    # not a field of the AUTOUGH2 MULTI record
+            data.compare(R, 'simulator-added', e6, e4)
+            R.check(e6['sections'][:1] == ['SIMUL'] and [k for k in e6['sections'] if k != 'SIMUL'] == [k for k in e4['sections'] if k != 'SIMUL'],
+                    'simulator-added:section-order', 'sections %r, before the simulator was set %r' % (e6['sections'], e4['sections']))
 
 
 def run_shipped(case, R):
